@@ -504,6 +504,7 @@ class GetTraceIrregular(GetTrace):
     structured = False
     mask_loaded = False
     override = False
+    modular_use = False          # never the call-site view of get_trace (that is the regular-file contract)
 
     def inputs(self, c):
         from pyvc.symex import TaggedInt
